@@ -24,7 +24,7 @@ func init() {
 	register(&mc.Check{
 		ID:    "C17",
 		Level: "model_checking",
-		Rule: "applications (navigator, loader with counting external functions, input echo, paginated sink mid-browse, engine with a WithFirst function) x all valid histories up to depth d x EVERY insertion position 0..|h| x refused inputs {!,' 1',-1,newline,*,0xff,1<nl>1,256 x a,300 x 1,a + 150 x e-acute (301 bytes)} x client behaviour after the refusal {nothing, Flush, Flush+Finish, and - engines kept between requests - the previous request's output fetched only after the refusal} x {long-lived, persisted on mem, persisted on fs}; " +
+		Rule: "applications (navigator, loader with counting external functions, input echo, paginated sink mid-browse, engine with a WithFirst function) x all valid histories up to depth d x EVERY insertion position 0..|h| x refused inputs {!,' 1',-1,newline,*,0xff,1<nl>1,256 x a,300 x 1,a + 150 x e-acute (301 bytes), 1 0xff 1, a 0xf8 b (begin like accepted input, not valid UTF-8)} x client behaviour after the refusal {nothing, Flush, Flush+Finish, and - engines kept between requests - the previous request's output fetched only after the refusal} x {long-lived, persisted on mem, persisted on fs}; " +
 			"two-run oracle: the refused request returns an error and calls no application code; outputs, continue flags and call logs of all other requests equal the run without it; persisted snapshot before and after the refused request is equal; Flush before any Exec is refused and changes nothing; " +
 			"states = distinct (app, history prefix) insertion points; non-trivial = insertions after at least one move away from the entry page",
 		Assumptions: []string{"for a brand-new session the snapshot is not compared (the staged entry move is not an observable effect), only the behaviour of the following requests"},
@@ -36,7 +36,8 @@ func init() {
 
 var c17Refused = []string{"!", " 1", "-1", "\n", "*", "\xff", "1\n1", strings.Repeat("a", 256), strings.Repeat("1", 300),
 	"a" + strings.Repeat("\u00e9", 150), // 301 bytes, 151 characters: the limit is in bytes
-	"%\xff\xfe"}                         // matches only the application's own format (see c17CustomFormat) and is not text
+	"%\xff\xfe",                         // matches only the application's own format (see c17CustomFormat) and is not text
+	"1\xff1", "a\xf8b"}                  // begin like accepted input (a digit, a letter) but are not valid UTF-8
 
 // c17CustomFormat registers, once per process, an additional input format the way an application does
 // (engine.AddValidInput / examples/first): inputs starting with '%'. The registry is process-wide.
